@@ -237,6 +237,9 @@ static void gen_search(vh_rng_t *rng)
     if (plain && app_cfg.ndomains > 0) {
       /* LOCALDOMAIN carries a single domain in c-ares (by design, asserted by nothing else): only then */
       app_cfg.domains_via = vh_range(rng, 0, app_cfg.ndomains == 1 ? 2 : 1);
+      if (app_cfg.domains_via == 1) {
+        app_cfg.domains_decoy = (int)vh_below(rng, 3);
+      }
     }
   }
   if (vh_chance(rng, 1, 6)) {
@@ -248,7 +251,9 @@ static void gen_search(vh_rng_t *rng)
   if (vh_chance(rng, 1, 4)) {
     snprintf(app_cfg.hostaliases_content, sizeof(app_cfg.hostaliases_content), "Host7 real7.alias.test\nother x.y.test\n");
   }
-  snprintf(app_cfg.lookups, sizeof(app_cfg.lookups), "%s", vh_chance(rng, 1, 5) ? "fb" : "b");
+  /* hosts file before the network, after it, or not at all (none of the generated names is in the hosts file:
+   * the file step must neither add candidates nor change what the walk over the network reports) */
+  snprintf(app_cfg.lookups, sizeof(app_cfg.lookups), "%s", vh_chance(rng, 1, 5) ? "fb" : vh_chance(rng, 1, 4) ? "bf" : "b");
   mon_enable_idx = mon_enable_fd = mon_enable_timer = 0;
   /* name shape */
   shape = (int)vh_below(rng, 14);
